@@ -20,7 +20,7 @@ ASSUMPTIONS = [
     'an inner Read returning 0 means end of data (std contract)',
 ]
 MANIFEST = {'text': 'proof of the structural conditions behind "never signals end-of-data early / keeps low-mark look-ahead": production low-mark covers a maximal message and the buffer has room, '
-                    'EOF is latched only by an empty read, the refill loop cannot be left short of the low mark except by EOF/full buffer/error, fill_buf returns buf[pos..cap], consume clamps, and the message iterator advances only by a parsed length or one byte. Added: the inner source is read only into the reader\'s own buffer (no bypass that moves the source without pos/cap/abs_pos).'}
+                    'EOF is latched only by an empty read, the refill loop cannot be left short of the low mark except by EOF/full buffer/error, fill_buf returns buf[pos..cap], consume clamps, and the message iterator advances only by a parsed length or one byte. Added: the inner source is read only into the reader\'s own buffer (no bypass that moves the source without pos/cap/abs_pos). Added: each parser decodes exactly one standard header (the one at the start of the window): no verdict depends on a second length field, i.e. on data beyond the guaranteed look-ahead. Added: every read of the inner source is given the whole free tail buf[cap..] (or cap + min(free, k>0)), so a zero-byte read means end of source.'}
 
 RD = 'adlt::utils::lowmarkbufreader::LowMarkBufReader'
 
@@ -49,8 +49,26 @@ def check_reader_configs(F, M1, maxmsg, cl, only=None):
             if blk.term.callee.path == RD + '::<R>::new':
                 cfg = CFG(b)
                 E = ExprBuilder(cfg, fold_named=True)
-                cap = fold(E.operand(blk.term.args[1]))
-                low = fold(E.operand(blk.term.args[2]))
+                def const_or_helper_min(e_, least=True):
+                    # a constant, or the result of a crate function every return value of which is a constant (worst case taken)
+                    v_ = fold(e_)
+                    if v_ is not None:
+                        return v_
+                    if isinstance(e_, tuple) and e_[0] == 'call' and F.get(e_[1]) is not None and F.get(e_[1]).kind != 'closure':
+                        H_ = F.get(e_[1])
+                        hc_ = CFG(H_)
+                        hE_ = ExprBuilder(hc_, fold_named=True)
+                        vals_ = []
+                        for (b_, s_, d_) in hc_.defs.get(0, []):
+                            if s_ == 'call':
+                                return None
+                            vals_.append(fold(hE_.rvalue(d_.rv)))
+                        if vals_ and all(x_ is not None for x_ in vals_):
+                            M1.fn(H_.path)
+                            return min(vals_) if least else max(vals_)
+                    return None
+                cap = const_or_helper_min(E.operand(blk.term.args[1]))
+                low = const_or_helper_min(E.operand(blk.term.args[2]))
                 n += 1
                 M1.sites += 1
                 M1.fn(b.path)
@@ -120,8 +138,11 @@ def check_rest(F, chk, M2, M3, cl):
         check_full_exit(b, M4, cl, F)
     M6 = chk.rule('M6', 'compaction keeps buf[i] <-> abs_pos + i for the copied window; if it leaves a stale prefix buf[0..offset), every Seek store to pos is bounded below by a field recording that offset')
     check_seek_window(F, M6)
+    M8 = chk.rule('M8', 'the parsers decide from the header of the message at the start of the window only (no second length field is decoded: look-ahead beyond one maximal message is not guaranteed)')
+    check_single_header_decode(F, M8)
     M7 = chk.rule('M7', 'the inner source is read only into the reader\'s own buffer (no bypass): every byte handed out is accounted for by pos/cap/abs_pos')
-    check_inner_reads(F, M7)
+    M9 = chk.rule('M9', 'every read of the inner source into the buffer is given the whole free tail buf[cap..] (start = cap, end = buffer end, or cap + min(free, k>0)): a request is empty only when the buffer is full, so `read == 0` means end of the source')
+    check_inner_reads(F, M7, M9)
     # M5: the consumer side.  The look-ahead guarantee is only worth something if the iterator's progress between two parse
     # attempts does not depend on how much happens to be buffered: it consumes either the length the parser reported or one byte.
     import c01
@@ -675,7 +696,52 @@ def check_seek_window(F, M6):
 # ---------------------------------------------------------------------------------------------
 # M7: no read of the inner source past the window bookkeeping
 
-def check_inner_reads(F, M7):
+def free_tail_request(dst):
+    """None if the slice expression `dst` of self.buf is the free tail behind cap, else the reason"""
+    from expr import walk
+    rng = None
+    for x in walk(dst):
+        if isinstance(x, tuple) and x and x[0] == 'agg' and re.search(r'ops::Range(From|Full|To|Inclusive|ToInclusive)?::', x[1]) and rng is None:
+            rng = x
+    if rng is None:
+        return 'the whole buffer / an untracked slice'
+    kind = rng[1].split('::')[-1]
+    cap = '(*self).cap'
+
+    def is_len(e):
+        return re.match(r'^(slice::len|Vec::len)\(.*\(\*self\)\.buf.*\)$', show(e)) is not None or re.match(r'^PtrMetadata\(.*\(\*self\)\.buf', show(e)) is not None
+
+    def is_free(e):
+        return isinstance(e, tuple) and e[0] == 'bin' and e[1] == 'Sub' and is_len(e[2]) and show(e[3]) == cap
+
+    def pos_const(e):
+        v = fold(e)
+        return isinstance(v, int) and v > 0
+    if kind == 'RangeFrom':
+        return None if show(rng[2][0]) == cap else 'starts at %s, not at cap' % show(rng[2][0])[:40]
+    if kind == 'Range':
+        a, e = rng[2]
+        if show(a) != cap:
+            return 'starts at %s, not at cap' % show(a)[:40]
+        while isinstance(e, tuple) and e[0] == 'cast':
+            e = e[1]
+        if is_len(e):
+            return None
+        if isinstance(e, tuple) and e[0] == 'call' and e[1].endswith('::min') and len(e[2]) == 2:
+            arms = list(e[2])
+            if any(is_len(x) for x in arms) and any(isinstance(x, tuple) and x[0] == 'bin' and x[1] == 'Add' and show(x[2]) == cap and pos_const(x[3]) for x in arms):
+                return None
+        if isinstance(e, tuple) and e[0] == 'bin' and e[1] == 'Add' and (show(e[2]) == cap or show(e[3]) == cap):
+            x = e[3] if show(e[2]) == cap else e[2]
+            if is_free(x):
+                return None
+            if isinstance(x, tuple) and x[0] == 'call' and x[1].endswith('::min') and len(x[2]) == 2 and any(is_free(y) for y in x[2]) and any(pos_const(y) for y in x[2]):
+                return None
+        return 'ends at %s: not the buffer end, the request can be empty (or short) while the buffer has room' % show(e)[:70]
+    return 'is a %s slice' % kind
+
+
+def check_inner_reads(F, M7, M9=None):
     """"keeps its absolute position" / "interleavings of fill, consume, read, seek": abs_pos + pos is the number of bytes handed
     out only because every byte taken from the inner source lands in self.buf and is then handed out through pos/cap.  A read
     of the inner source straight into a caller buffer (the large-read bypass of std's BufReader) advances the source without
@@ -715,6 +781,15 @@ def check_inner_reads(F, M7):
                                     toks |= pr.operand(Operand(s_.rv[key]), at=x)
                             if any(tk[0] == 'call' and tk[1] == t.callee.path for tk in toks):
                                 accounted = b.loc(s_.sp)
+            if '(*self).buf' in dst and M9 is not None:
+                M9.sites += 1
+                M9.fn(b.path)
+                why = free_tail_request(E.operand(t.args[1]))
+                if why is None:
+                    M9.ok(sample={'inner_read_at': b.loc(t.sp), 'request': 'buf[cap..]'})
+                else:
+                    M9.violation(('read-request-not-free-tail', b.path), '%s asks the inner source at %s for a slice of the buffer that %s: a zero-length request returns 0 and is taken for the end of the source '
+                                 '(EOF latched early, look-ahead lost), a request not starting at cap overwrites or skips buffered bytes' % (b.path, b.loc(t.sp), why), where=b.loc(t.sp))
             if '(*self).buf' in dst:
                 M7.ok(sample={'inner_read_at': b.loc(t.sp), 'into': dst[:80]})
             elif accounted:
@@ -723,3 +798,54 @@ def check_inner_reads(F, M7):
                 M7.violation(('inner-read-bypasses-window', b.path), '%s reads the inner source into %s at %s, not into the reader\'s own buffer: those bytes are handed out without pos/cap/abs_pos moving, '
                              'so stream_position() and every later seek are off by that amount' % (b.path, dst[:60] or '?', b.loc(t.sp)), where=b.loc(t.sp))
     M7.floor('reads of the inner source', n, 1)
+    if M9 is not None:
+        M9.floor('reads of the inner source into the buffer', M9.sites, 1)
+
+
+# ---------------------------------------------------------------------------------------------
+# M8: one header per parse
+
+def check_single_header_decode(F, M8):
+    """The reader guarantees one maximal message of look-ahead from the start of the window (M1/M2/M4).  The parsers' verdict must
+    therefore be a function of that much data only: what lies behind `start + framing + len + 4` may or may not be buffered,
+    depending on read sizes and the position in the stream.  A decision that decodes a *second* standard header found at an
+    interior offset and follows its length field looks up to another 64 KiB ahead - the same bytes then parse differently
+    under different chunking.  For each parse function and the crate functions it hands (parts of) the data to: exactly one
+    DltStandardHeader::from_buf call, on data[framing..]."""
+    n = 0
+    for name, cname in (('adlt::dlt::parse_dlt_with_storage_header', 'adlt::dlt::DLT_STORAGE_HEADER_SIZE'), ('adlt::dlt::parse_dlt_with_serial_header', 'adlt::dlt::DLT_SERIAL_HEADER_SIZE')):
+        b = F.get(name)
+        C = F.consts.get(cname, {}).get('v')
+        if b is None or C is None:
+            M8.violation(('anchor-lost', name), '%s or its framing constant not found' % name)
+            continue
+        M8.fn(b.path)
+        group = [b]
+        work = [b]
+        while work:
+            x = work.pop()
+            for blk in x.calls():
+                H = F.get(blk.term.callee.resolved) if blk.term.callee.resolved else F.get(blk.term.callee.path)
+                if H is not None and H.crate == 'lib' and H.kind != 'closure' and H not in group and H.path.startswith('adlt::dlt::') and \
+                        not (H.impl_self or '') and any((a.ty or '') == '&[u8]' for a in blk.term.args) and len(group) < 8:
+                    group.append(H)
+                    work.append(H)
+        decodes = []
+        for x in group:
+            cfg = E = None
+            for blk in x.calls():
+                if blk.term.callee.path.endswith('DltStandardHeader::from_buf'):
+                    cfg = cfg or CFG(x)
+                    E = E or ExprBuilder(cfg, fold_named=True)
+                    decodes.append((x, blk, show(E.operand(blk.term.args[0]))))
+        M8.sites += len(decodes)
+        n += len(decodes)
+        good = [d for d in decodes if d[0] is b and 'RangeFrom::RangeFrom{%d}' % C in d[2]]
+        extra = [d for d in decodes if d not in good]
+        if len(good) == 1 and not extra:
+            M8.ok(sample={'parser': name, 'header_decodes': 1, 'on': 'data[%d..]' % C, 'functions_examined': [x.path.split('::')[-1] for x in group]})
+        else:
+            for (x, blk, txt) in extra or decodes:
+                M8.violation(('second-header-decoded', name, x.path.split('::')[-1]), '%s decodes a standard header from %s at %s (on behalf of %s): the verdict then depends on a length field that is not the one of the message at the start of the window, '
+                             'i.e. on data beyond the guaranteed look-ahead - the same bytes parse differently depending on how much happens to be buffered' % (x.path, txt[:60], x.loc(blk.term.sp), name), where=x.loc(blk.term.sp))
+    M8.floor('standard header decodes in the two parsers', n, 2)
